@@ -114,9 +114,11 @@ func (x *Exec) execInstr(fr *frame, ins ssa.Instruction, st *State, reach string
 		x.oblige("safety", "makeslice", reach, "(and (<= 0 "+ln+") (<= "+ln+" "+cp+") (<= "+cp+" 4611686018427387904))", "make: 0 <= len <= cap", t.Pos())
 		et := t.Type().Underlying().(*types.Slice).Elem()
 		comp := x.so.elemComp(et)
+		doneAlloc := x.allocFrame(st, comp)
 		r := x.allocRef(st, "mk")
 		cur := st.get(comp)
 		st.set(comp, x.define(comp, x.so.comps[comp], "(store "+cur+" "+r+" ((as const (Array Int "+x.so.sortOf(et)+")) "+x.so.zeroOf(et)+"))"))
+		doneAlloc()
 		fr.vals[t] = sval{t: x.define("sl", "Slice", "(mkS "+r+" 0 "+ln+" "+cp+")")}
 		return st
 	case *ssa.MakeMap:
@@ -737,9 +739,11 @@ func (x *Exec) execConvert(fr *frame, t *ssa.Convert, st *State, reach string) *
 	case fs == "Slice" && ts == "Slice":
 		// string <-> []byte: a fresh copy with the same content
 		_, toStr := to.Underlying().(*types.Basic)
+		doneAlloc := x.allocFrame(st, "BM")
 		r := x.allocRef(st, "conv")
 		bm := st.get("BM")
 		st.set("BM", x.define("BM", x.so.comps["BM"], "(store "+bm+" "+r+" (rowShift (select "+bm+" (s_base "+xv.t+")) (s_off "+xv.t+")))"))
+		doneAlloc()
 		var res string
 		if toStr {
 			res = x.define("str", "Slice", "(ite (= (s_len "+xv.t+") 0) emptyStr (mkS "+r+" 0 (s_len "+xv.t+") (s_len "+xv.t+")))")
